@@ -480,5 +480,7 @@ pub fn run(tier: Tier, seed: u64) -> i32 {
     report.space("every array differing from 0 or N in exactly one byte (2x32x255) or one bit; N+-d, N+-2^k, 2N mod 2^256, 2^256-1, all powers of two, private-key alphabet");
     report.space("server's own B steered to 0 (must be refused), 1, 183, family members, N-1 through a chosen verifier and scripted b");
     report.assume("the rest of the 2^256 space is represented by the alphabets");
+    report.set("exhaustive", json!(false));
+    report.cap_hit("the 2^32 {0,N_i} family is closed completely in the thorough tier; the rest of the 2^256 key space is represented by neighbours, fold collisions and alphabets");
     report.finish()
 }
